@@ -326,9 +326,9 @@ Print Assumptions C11_trinterp_endpoints.
 Theorem C11_trinterp_SE3_dispatch : forall (A B : M44 R) s,
   dyn Rops (Some (Mat44 A)) (Mat44 B) s =
     match trq (r2q_m Rops (kR Rops) (t2r3 A)) (r2q_m Rops (kR Rops) (t2r3 B)) (transl3 A) (transl3 B) s with
-    | Ok m => Ok (RetMat (Mat44 m)) | Err e => Err e end /\
+    | Ok m => Ok (Mat44 m) | Err e => Err e end /\
   dyn Rops None (Mat44 B) s =
-    match trq1 (r2q_m Rops (kR Rops) (t2r3 B)) (transl3 B) s with Ok m => Ok (RetMat (Mat44 m)) | Err e => Err e end.
+    match trq1 (r2q_m Rops (kR Rops) (t2r3 B)) (transl3 B) s with Ok m => Ok (Mat44 m) | Err e => Err e end.
 Proof.
   intros. unfold dyn, trinterp_dyn, trinterp_q, trinterp_q1, bind, t2r_dyn, r2q_dyn, transl_dyn.
   destruct (in01 Rops s); cbn [negb]; split; try reflexivity;
@@ -336,36 +336,62 @@ Proof.
 Qed.
 Print Assumptions C11_trinterp_SE3_dispatch.
 
-(* FULL STATEMENT (what the documentation promises for SO(3) arguments), false of the code as it is:
-     forall R s, SO3 R -> 0 <= s <= 1 -> exists M, dyn None (Mat33 R) s = Ok (RetMat (Mat33 M)) /\ SO3 M.
-   The SO(3) branch calls t2r on the 3x3 matrix, gets its leading 2x2 block and r2q rejects it: every call raises. *)
-Theorem C11_trinterp_SO3_refuted : exists (Rm : M33 R) (s : R), SO3 Rm /\ 0 <= s <= 1 /\
-  ~ (exists M, dyn Rops None (Mat33 Rm) s = Ok (RetMat (Mat33 M))).
+(* the shape dispatch, SO(3) inputs (fix ee14c5b: r2q is applied to the 3x3 arguments themselves): the result is the
+   matrix of slerp of the two r2q's, for every s (out of range: slerp's ValueError) *)
+Theorem C11_trinterp_SO3_dispatch : forall (R0 R1 : M33 R) s,
+  dyn Rops (Some (Mat33 R0)) (Mat33 R1) s =
+    match slerpR (r2q_m Rops (kR Rops) R0) (r2q_m Rops (kR Rops) R1) s trinterp_shortest with
+    | Ok q => Ok (Mat33 (q2r_ref Rops q)) | Err e => Err e end /\
+  dyn Rops None (Mat33 R1) s =
+    match slerpR (qone Rops) (r2q_m Rops (kR Rops) R1) s trinterp_shortest with
+    | Ok q => Ok (Mat33 (q2r_ref Rops q)) | Err e => Err e end.
 Proof.
-  exists (I33 Rops), (1/2). split; [apply SO3_I|]. split; [lra|]. intros [M E].
-  unfold dyn, trinterp_dyn in E. assert (A : in01 Rops (1/2) = true) by (apply in01_true; lra). rewrite A in E.
-  cbn in E. discriminate E.
+  intros. unfold dyn, trinterp_dyn, bind, r2q_dyn, q2r_m.
+  destruct (in01 Rops s) eqn:E; cbn [negb]; split; try reflexivity;
+    apply in01_false in E; rewrite (C11_slerp_rejects_out_of_range _ _ _ _ E); reflexivity.
 Qed.
-Print Assumptions C11_trinterp_SO3_refuted.
+Print Assumptions C11_trinterp_SO3_dispatch.
 
-(* ... in fact for every 3x3 argument, with or without start, and whatever s in [0,1] *)
-Theorem C11_trinterp_SO3_always_raises : forall (R0 Rm : M33 R) (s : R), 0 <= s <= 1 ->
-  dyn Rops None (Mat33 Rm) s = Err ValueError /\ dyn Rops (Some (Mat33 R0)) (Mat33 Rm) s = Err ValueError.
+(* FULL-STRENGTH statement for SO(3) arguments (it was `_refuted` before the fix): with q0 = r2q(R0), q1 = r2q(R1) unit
+   quaternions whose matrices are R0, R1 (the specification of r2q, property C04), every s in [0,1] gives a matrix of SO(3),
+   namely the matrix of slerp (so C11_slerp_rotation_fixed_axis is about it), with the ends at s = 0 and s = 1 *)
+Theorem C11_trinterp_SO3_valid : forall (R0 R1 : M33 R) s,
+  let q0 := r2q_m Rops (kR Rops) R0 in let q1 := r2q_m Rops (kR Rops) R1 in
+  unitq q0 -> unitq q1 -> q2r_ref Rops q0 = R0 -> q2r_ref Rops q1 = R1 -> 0 <= s <= 1 -> not_antipodal trinterp_shortest q0 q1 ->
+  (exists q, slerpR q0 q1 s trinterp_shortest = Ok q /\ unitq q /\
+     dyn Rops (Some (Mat33 R0)) (Mat33 R1) s = Ok (Mat33 (q2r_ref Rops q)) /\ SO3 (q2r_ref Rops q)) /\
+  dyn Rops (Some (Mat33 R0)) (Mat33 R1) 0 = Ok (Mat33 R0) /\ dyn Rops (Some (Mat33 R0)) (Mat33 R1) 1 = Ok (Mat33 R1) /\
+  dyn Rops None (Mat33 R1) 1 = Ok (Mat33 R1) /\ dyn Rops None (Mat33 R1) 0 = Ok (Mat33 (I33 Rops)).
 Proof.
-  intros R0 Rm s Hs. unfold dyn, trinterp_dyn. assert (A : in01 Rops s = true) by (apply in01_true; exact Hs). rewrite A.
-  split; reflexivity.
+  intros R0 R1 s q0 q1 U0 U1 E0 E1 Hs NA.
+  destruct (C11_slerp_unit q0 q1 s trinterp_shortest U0 U1 Hs NA) as (q & E & U & S).
+  split; [exists q; repeat split; try assumption; destruct (C11_trinterp_SO3_dispatch R0 R1 s) as [D _]; rewrite D; fold q0 q1; rewrite E; reflexivity|].
+  destruct (C11_trinterp_SO3_dispatch R0 R1 0) as [D0 N0]. destruct (C11_trinterp_SO3_dispatch R0 R1 1) as [D1 N1].
+  fold q0 q1 in D0, D1, N0, N1.
+  destruct (C11_slerp_endpoints q0 q1 trinterp_shortest) as [X0 X1].
+  destruct (C11_slerp_endpoints (qone Rops) q1 trinterp_shortest) as [Y0 Y1].
+  rewrite D0, D1, N0, N1, X0, X1, Y0, Y1, E0, E1. repeat split.
+  f_equal. f_equal. lin_simpl. tuple_eq ltac:(ring).
 Qed.
-Print Assumptions C11_trinterp_SO3_always_raises.
+Print Assumptions C11_trinterp_SO3_valid.
 
-(* what does hold (guarded): for 4x4 arguments the dispatch reaches the SE(3) code (C11_trinterp_SE3_dispatch), and
-   a matrix that is neither 3x3 nor 4x4 is NOT rejected by an exception: the exception object is the return value *)
-Theorem C11_trinterp_dispatch_partial : forall s, 0 <= s <= 1 ->
-  dyn Rops None MatOther s = Ok (RetExc ValueError) /\ (forall m, dyn Rops None (Mat22 m) s = Ok (RetExc ValueError)).
+Example C11_trinterp_SO3_nonvacuous : unitq (qone Rops) /\ q2r_ref Rops (qone Rops) = I33 Rops /\ SO3 (I33 Rops) /\
+  unitq (3/5, 4/5, 0, 0) /\ SO3 (q2r_ref Rops (3/5, 4/5, 0, 0)).
 Proof.
-  intros s Hs. unfold dyn, trinterp_dyn. assert (A : in01 Rops s = true) by (apply in01_true; exact Hs). rewrite A.
-  split; [|intros m]; reflexivity.
+  assert (U : unitq (3/5, 4/5, 0, 0)) by (unfold unitq; lin_simpl; lra).
+  split; [unfold unitq; lin_simpl; lra|]. split; [lin_simpl; tuple_eq ltac:(ring)|].
+  split; [apply SO3_I|]. split; [exact U | apply SO3_q2r; exact U].
 Qed.
-Print Assumptions C11_trinterp_dispatch_partial.
+
+(* arguments that are neither 3x3 nor 4x4 (and mixed 3x3 / 4x4 pairs) are rejected with ValueError, whatever s (fix 339284c) *)
+Theorem C11_trinterp_rejects_bad_shape : forall start s,
+  dyn Rops start MatOther s = Err ValueError /\ (forall m, dyn Rops start (Mat22 m) s = Err ValueError) /\
+  (forall (A : M33 R) (B : M44 R), dyn Rops (Some (Mat33 A)) (Mat44 B) s = Err ValueError /\
+                                   dyn Rops (Some (Mat44 B)) (Mat33 A) s = Err ValueError).
+Proof.
+  intros start s. unfold dyn, trinterp_dyn. destruct (in01 Rops s); cbn [negb]; repeat split; reflexivity.
+Qed.
+Print Assumptions C11_trinterp_rejects_bad_shape.
 
 (* ---------------------------------------------------------------- 2-D: trinterp2 executed on symbols *)
 (* bring the argument of every sin / cos of the goal to the form t (equal as polynomials) *)
